@@ -326,6 +326,9 @@ func catalogue() []variantSpec {
 	for _, f := range relayTxnKinds {
 		vs = append(vs, variantSpec{"relay-txns", f, []int{2, 1, 5}, 0, false})
 	}
+	// two cooperating Byzantine peers (twostep.go)
+	vs = append(vs, variantSpec{"preseed-instant", "", []int{2, 5}, 1, false},
+		variantSpec{"two-mismatch-then-honest", "", []int{0, 1, 3}, -1, false})
 	for _, f := range malformedKinds {
 		vs = append(vs, variantSpec{"malformed", f, any6, 0, false})
 	}
@@ -359,7 +362,7 @@ func genOne(c *hx.Ctx, v variantSpec, i int) (Scen, bool) {
 			s.Opts.TxPerBlock = 2
 			s.Opts.Branchiness = 4
 		}
-		if r.Chance(1, 3) {
+		if r.Chance(1, 3) && v.attack != "two-mismatch-then-honest" {
 			s.Batch = 3
 		}
 		t := s.safeTree()
@@ -403,6 +406,10 @@ func genOne(c *hx.Ctx, v variantSpec, i int) (Scen, bool) {
 				case "cp-forge":
 					if fp != vn {
 						continue // the checkpoint is the victim's own tip
+					}
+				case "preseed-instant":
+					if vn.Parent == nil || vn.Block.V2 == nil {
+						continue
 					}
 				case "relay-header", "relay-outline", "relay-txns":
 					if vn.Parent == nil {
@@ -512,10 +519,10 @@ func genScens(c *hx.Ctx) []Scen {
 		}
 	}
 	// mixes of honest and Byzantine peers, and repeat offenders
-	n := c.Scale(16, 150)
+	n := c.Scale(12, 150)
 	for i := 0; i < n; i++ {
 		v := cat[c.R.Intn(len(cat))]
-		if v.attack == "malformed" {
+		if v.attack == "malformed" || v.attack == "preseed-instant" || v.attack == "two-mismatch-then-honest" {
 			continue
 		}
 		if s, ok := genOne(c, v, i); ok {
